@@ -569,27 +569,35 @@ package ysgo
 // newFunctionStorer registers the built-ins through the reflection bridge (C16, bounded stand-in B-bridge)
 //@ func newFunctionStorer(rng *rng.RNG) (res *functionStorer)
 //@   trusted
-//@   requires rng != nil
+//@   requires rng != nil && bridgeReady()
 //@   ensures res != nil && fresh(res) && res.functionsByID != nil && fresh(res.functionsByID)
 //
 // The converting bridge itself is reflection code (C16: bounded stand-in B-bridge); around it: a wrapper is
 // stored under the name only when the conversion succeeded.
 //@ func newYarnSpinnerFunction(function any) (f YarnSpinnerFunction, err error)
-//@   trusted
+//@   requires bridgeReady()
 //@   ensures (err == nil) == (f != nil)
+//@   ensures "registered-iff-bridgeable": (err == nil) == functionBridgeable(function)
+//@ closure newYarnSpinnerFunction$1(args []*variable.Value) (v *variable.Value, err error)
+//@   trusted
 //
 //@ func (storer *functionStorer) convertAndAddFunction(functionID string, function any) (err error)
-//@   requires storer != nil && storer.functionsByID != nil
+//@   requires storer != nil && storer.functionsByID != nil && bridgeReady()
+//@   ensures "refused-iff-it-cannot-be-bridged": (err == nil) == functionBridgeable(function)
 //@   modifies mapcontent(storer.functionsByID)
 //@   ensures "registered-on-success": err == nil ==> functionID in storer.functionsByID && storer.functionsByID[functionID] != nil
 //@   ensures "nothing-registered-on-failure": err != nil ==> dom(storer.functionsByID) == old(dom(storer.functionsByID)) && mapval(storer.functionsByID) == old(mapval(storer.functionsByID))
 //
 //@ func newYarnSpinnerCommand(command any) (c YarnSpinnerCommand, err error)
-//@   trusted
+//@   requires bridgeReady()
 //@   ensures (err == nil) == (c != nil)
+//@   ensures "registered-iff-bridgeable": (err == nil) == commandBridgeable(command)
+//@ closure newYarnSpinnerCommand$1(args []*variable.Value) (ch <-chan error)
+//@   trusted
 //
 //@ func (storer *commandStorer) convertAndAddCommand(commandID string, command any) (err error)
-//@   requires storer != nil && storer.commandsByID != nil
+//@   requires storer != nil && storer.commandsByID != nil && bridgeReady()
+//@   ensures "refused-iff-it-cannot-be-bridged": (err == nil) == commandBridgeable(command)
 //@   modifies mapcontent(storer.commandsByID)
 //@   ensures "registered-on-success": err == nil ==> commandID in storer.commandsByID && storer.commandsByID[commandID] != nil
 //@   ensures "nothing-registered-on-failure": err != nil ==> dom(storer.commandsByID) == old(dom(storer.commandsByID)) && mapval(storer.commandsByID) == old(mapval(storer.commandsByID))
@@ -608,12 +616,14 @@ package ysgo
 //@           (forall k string :: {k in dr.commandStorer.commandsByID} k != commandID ==>
 //@               (k in dr.commandStorer.commandsByID) == old(k in dr.commandStorer.commandsByID))
 //@ func (dr *DialogueRunner) ConvertAndAddFunction(functionID string, function any) (err error)
-//@   requires dr != nil && dr.functionStorer != nil && dr.functionStorer.functionsByID != nil
+//@   requires dr != nil && dr.functionStorer != nil && dr.functionStorer.functionsByID != nil && bridgeReady()
+//@   ensures "refused-iff-it-cannot-be-bridged": (err == nil) == functionBridgeable(function)
 //@   modifies mapcontent(dr.functionStorer.functionsByID)
 //@   ensures "nothing-registered-on-failure": err != nil ==> dom(dr.functionStorer.functionsByID) == old(dom(dr.functionStorer.functionsByID)) &&
 //@           mapval(dr.functionStorer.functionsByID) == old(mapval(dr.functionStorer.functionsByID))
 //@ func (dr *DialogueRunner) ConvertAndAddCommand(commandID string, command any) (err error)
-//@   requires dr != nil && dr.commandStorer != nil && dr.commandStorer.commandsByID != nil
+//@   requires dr != nil && dr.commandStorer != nil && dr.commandStorer.commandsByID != nil && bridgeReady()
+//@   ensures "refused-iff-it-cannot-be-bridged": (err == nil) == commandBridgeable(command)
 //@   modifies mapcontent(dr.commandStorer.commandsByID)
 //@   ensures "nothing-registered-on-failure": err != nil ==> dom(dr.commandStorer.commandsByID) == old(dom(dr.commandStorer.commandsByID)) &&
 //@           mapval(dr.commandStorer.commandsByID) == old(mapval(dr.commandStorer.commandsByID))
@@ -624,6 +634,7 @@ package ysgo
 //@   arith wrap
 //
 //@ func NewDialogueRunner(storer variable.Storer, rngSeed string, readers []io.Reader) (runner *DialogueRunner, err error)
+//@   requires "package-initialised": bridgeReady()   // established by the package initialiser (proved), never written afterwards (effect pass)
 //@   ensures "runner-or-error": (err == nil) == (runner != nil)
 //@   ensures "owns-fresh": err == nil ==> fresh(runner) && fresh(runner.dialogue) && fresh(runner.visitedNodes) && fresh(runner.functionStorer) &&
 //@               fresh(runner.commandStorer) && fresh(*(&runner.statementsToRun)) && (dyntype(storer) == 0 ==> fresh(runner.variableStorer)) &&
@@ -664,3 +675,74 @@ package ysgo
 // Not a proof obligation (the solvers do not decide IEEE multiplication against real arithmetic): the
 // truncated IEEE product is within 2 ns of the exact one for waits up to 10^6 s (rounding error of the
 // product <= 2^-53 * 10^15 < 0.12, truncation < 1); listed as an assumption of C10.
+//
+// ---- function_storer.go / command_storer.go: the registration gates over reflect's type descriptors (C16) ------------
+//
+// A result or parameter can cross the bridge as a value when its kind is a signed integer, a float, a boolean or a string.
+//@ pure func valueKind(k int) bool { return (2 <= k && k <= 6) || k == 13 || k == 14 || k == 1 || k == 24 }
+//
+//@ func isTypeConvertibleToValue(t reflect.Type) (res bool)
+//@   requires dyntype(t) != 0
+//@   ensures "value-kinds": res == valueKind(rKind(t))
+//
+// Results of a function: nothing, a value, an error, or a value and an error (C16); everything else is refused.
+//@ pure func errorLike(t reflect.Type) bool { return rConvertible(t, typeError) }
+//@ pure func funcResultsOK(ft reflect.Type) bool {
+//@     return rNumOut(ft) == 0 ||
+//@            (rNumOut(ft) == 1 && (valueKind(rKind(rOut(ft, 0))) || errorLike(rOut(ft, 0)))) ||
+//@            (rNumOut(ft) == 2 && valueKind(rKind(rOut(ft, 0))) && errorLike(rOut(ft, 1))) }
+//@ func checkFunctionOutputParameters(functionType reflect.Type) (sig returnSignature, err error)
+//@   requires dyntype(functionType) != 0 && rKind(functionType) == 19 && dyntype(typeError) != 0
+//@   ensures "refused-iff-results-cannot-be-bridged": (err == nil) == funcResultsOK(functionType)
+//@   ensures "signature": err == nil ==> sig == (rNumOut(functionType) == 0 ? 0 : rNumOut(functionType) == 2 ? 4 : valueKind(rKind(rOut(functionType, 0))) ? 1 : 2)
+//
+// Results of a command: nothing, an error, or a channel from which errors can be received (C16).
+//@ pure func errChanLike(t reflect.Type) bool { return rKind(t) == 18 && rConvertible(t, typeReceiveErrChan) }
+//@ pure func cmdResultsOK(ft reflect.Type) bool {
+//@     return rNumOut(ft) == 0 || (rNumOut(ft) == 1 && (errorLike(rOut(ft, 0)) || errChanLike(rOut(ft, 0)))) }
+//@ func isTypeErrChan(t reflect.Type) (res bool)
+//@   requires dyntype(t) != 0 && dyntype(typeReceiveErrChan) != 0
+//@   ensures "receivable-error-channel": res == errChanLike(t)
+//@ func checkCommandOutputParameters(commandType reflect.Type) (sig returnSignature, err error)
+//@   requires dyntype(commandType) != 0 && rKind(commandType) == 19 && dyntype(typeError) != 0 && dyntype(typeReceiveErrChan) != 0
+//@   ensures "refused-iff-results-cannot-be-bridged": (err == nil) == cmdResultsOK(commandType)
+//@   ensures "signature": err == nil ==> sig == (rNumOut(commandType) == 0 ? 0 : errorLike(rOut(commandType, 0)) ? 2 : 3)
+//
+// Parameters: every fixed parameter, and the element type of a variadic tail, has a value kind (C16). The table of
+// per-kind converters is a package-level map that is never written after its initialiser (C18's effect pass):
+// its keys are exactly the value kinds.
+//@ pure func bridgeReady() bool { return dyntype(typeError) != 0 && dyntype(typeReceiveErrChan) != 0 && converterTableOK() }
+//@ pure func functionBridgeable(function any) bool {
+//@     return dyntype(function) != 0 && rKind(rTypeOf(function)) == 19 && !rIsNil(function) && funcResultsOK(rTypeOf(function)) && paramsOK(rTypeOf(function)) }
+//@ pure func commandBridgeable(command any) bool {
+//@     return dyntype(command) != 0 && rKind(rTypeOf(command)) == 19 && !rIsNil(command) && cmdResultsOK(rTypeOf(command)) && paramsOK(rTypeOf(command)) }
+//@ pure func converterTableOK() bool { return argConverterByGoalKind != nil &&
+//@     (forall k reflect.Kind :: {k in argConverterByGoalKind} (k in argConverterByGoalKind) == valueKind(k)) }
+//@ pure func fixedParams(ft reflect.Type) int { return rVariadic(ft) ? rNumIn(ft) - 1 : rNumIn(ft) }
+//@ pure func paramsOK(ft reflect.Type) bool {
+//@     return (forall i int :: {rIn(ft, i)} 0 <= i && i < fixedParams(ft) ==> valueKind(rKind(rIn(ft, i)))) &&
+//@            (rVariadic(ft) ==> valueKind(rKind(rElem(rIn(ft, rNumIn(ft) - 1))))) }
+//@ func createInputConverter(functionType reflect.Type) (conv, err)
+//@   requires dyntype(functionType) != 0 && rKind(functionType) == 19 && converterTableOK()
+//@   ensures (err == nil) == (conv != nil)
+//@   ensures "refused-iff-a-parameter-cannot-be-bridged": (err == nil) == paramsOK(functionType)
+//@   loop 0: invariant 0 <= i && i <= numIn && numIn == rNumIn(functionType) && !rVariadic(functionType) && (arrayOf(argConverters) == 0 || fresh(argConverters)) &&
+//@           (forall j int :: {rIn(functionType, j)} 0 <= j && j < i ==> valueKind(rKind(rIn(functionType, j))))
+//@   loop 0: decreases numIn - i
+//@ closure createInputConverter$1(args []*variable.Value) (res []reflect.Value, err error)
+//@   trusted
+//@ func createVariadicInputConverter(functionType reflect.Type) (conv, err)
+//@   requires dyntype(functionType) != 0 && rKind(functionType) == 19 && rVariadic(functionType) && converterTableOK()
+//@   ensures (err == nil) == (conv != nil)
+//@   ensures "refused-iff-a-parameter-cannot-be-bridged": (err == nil) == paramsOK(functionType)
+//@   loop 0: invariant 0 <= i && i <= numIn - 1 && numIn == rNumIn(functionType) && numIn >= 1 && (arrayOf(argConverters) == 0 || fresh(argConverters)) &&
+//@           (forall j int :: {rIn(functionType, j)} 0 <= j && j < i ==> valueKind(rKind(rIn(functionType, j))))
+//@   loop 0: decreases numIn - i
+//@ closure createVariadicInputConverter$1(args []*variable.Value) (res []reflect.Value, err error)
+//@   trusted
+//
+// The package initialiser fills the converter table with exactly the value kinds.
+//@ func init()
+//@   requires !initguard
+//@   modifies initguard, typeError, typeReceiveErrChan, argConverterByGoalKind
+//@   ensures "bridge-ready": bridgeReady()
